@@ -60,8 +60,9 @@ InitCore(d) == /\ dir = d /\ seen = 0 /\ c = CReset(d) /\ now = 0 /\ pcRun = "id
                /\ gval = [g \in GIds |-> 0]
 Init == script \in Scripts /\ steps \in StepSets /\ InitCore(Dir)
 
-FilesEv == IF files = 0 THEN [ev |-> "files", set |-> "none", key |-> 0, cert |-> 0, ca |-> 0]
-           ELSE [ev |-> "files", set |-> "set", key |-> IF Variant = "keyReuse" THEN 1 ELSE files, cert |-> files, ca |-> fca]
+FilesEv == IF files = 0 THEN [ev |-> "files", set |-> "none", key |-> 0, cert |-> 0, chain |-> <<>>, ca |-> 0]
+           ELSE [ev |-> "files", set |-> "set", key |-> IF Variant = "keyReuse" THEN 1 ELSE files, cert |-> files,
+                 chain |-> <<files, IntId>>, ca |-> fca]
 Emit(e) == c' = CNext(c, e)
 
 (* ------------------------------ Run ------------------------------ *)
@@ -78,6 +79,7 @@ Req(from, to) == /\ pcRun = from /\ pcRun' = to /\ nreq' = nreq + 1 /\ q' = FALS
                           keyid |-> IF Variant = "keyReuse" /\ nreq >= 1 THEN 1 ELSE nreq + 1])
                  /\ UNCHANGED <<script, steps, dir, now, rw, readyCh, cur, fetched, renew, target, files, fca, ver, pcR, pcG, seen, gval>>
 IssueEv(a, v) == [ev |-> "issue", n |-> nreq, ok |-> a.kind # "err", chain |-> a.kind # "empty", hasid |-> a.kind \notin {"noid", "empty"},
+                  certs |-> IF a.kind \in {"err", "empty"} THEN <<>> ELSE <<nreq, IntId>>,      \* the issuer answers leaf + intermediate
                   nb |-> now + a.nb, na |-> now + a.na, anchors |-> v]
 (* the issuer answers a (trust anchors now at version v); the answer is checked; a good one goes on to the directory write *)
 Issue(a, v, from, okTo, failTo) ==
@@ -93,7 +95,8 @@ Issue(a, v, from, okTo, failTo) ==
   /\ UNCHANGED <<script, steps, dir, now, rw, readyCh, nreq, renew, files, fca, pcR, pcG, seen, gval>>
 (* dir.Write: the new set becomes visible at the rename (the other filesystem steps change nothing observable) *)
 DirWrite(from, to) == /\ pcRun = from /\ pcRun' = to /\ files' = nreq /\ fca' = ver /\ q' = FALSE
-                      /\ Emit([ev |-> "files", set |-> "set", key |-> IF Variant = "keyReuse" THEN 1 ELSE nreq, cert |-> nreq, ca |-> ver])
+                      /\ Emit([ev |-> "files", set |-> "set", key |-> IF Variant = "keyReuse" THEN 1 ELSE nreq, cert |-> nreq,
+                               chain |-> <<nreq, IntId>>, ca |-> ver])
                       /\ UNCHANGED <<script, steps, dir, now, rw, readyCh, cur, nreq, fetched, renew, target, ver, pcR, pcG, seen, gval>>
 RunPublish == /\ pcRun = "publish" /\ pcRun' = "close" /\ cur' = nreq /\ q' = FALSE
               /\ UNCHANGED <<c, script, steps, dir, now, rw, readyCh, nreq, fetched, renew, target, files, fca, ver, pcR, pcG, seen, gval>>
@@ -177,6 +180,7 @@ GetUnlock(g) == /\ pcG[g] = "held" /\ pcG' = [pcG EXCEPT ![g] = "ret"] /\ rw' = 
 GetRet(g) == /\ pcG[g] = "ret" /\ pcG' = [pcG EXCEPT ![g] = "done"] /\ q' = FALSE
              /\ seen' = gval[g]
              /\ Emit([ev |-> "get_ret", g |-> g, svid |-> gval[g], err |-> gval[g] = 0,
+                      chain |-> IF gval[g] = 0 THEN <<>> ELSE <<gval[g], IntId>>,
                       key |-> IF gval[g] = 0 THEN 0 ELSE IF Variant = "keyReuse" THEN 1 ELSE gval[g]])
              /\ UNCHANGED <<script, steps, dir, now, pcRun, rw, readyCh, cur, nreq, fetched, renew, target, files, fca, ver, pcR, gval>>
 GetInternal(g) == GetEnter(g) \/ GetSecond(g) \/ GetUnlock(g) \/ GetRet(g) \/ (IsCons(g) /\ GetCall(g))
@@ -190,7 +194,7 @@ GetBlocked(g) == \/ pcG[g] \in {"idle", "done"}
 Quiet == RunBlocked /\ (\A r \in RIds : ReadyBlocked(r)) /\ (\A g \in GIds : GetBlocked(g))
 AllStarted == pcRun # "idle" /\ (\A r \in RIds : pcR[r] # "idle") /\ (\A g \in GIds : pcG[g] # "idle")
 NPending == Cardinality({r \in RIds : pcR[r] = "wait"}) + Cardinality({g \in GIds : pcG[g] \notin {"idle", "done"}})
-QuiesceEvs(c0) == CNext(CNext(c0, FilesEv), [ev |-> "quiescent"])
+QuiesceEvs(c0) == CNext(CNext(c0, FilesEv), [ev |-> "quiescent", served |-> IF readyCh THEN cur ELSE -1])
 Quiesce == /\ Quiet /\ ~q /\ q' = TRUE
            /\ c' = IF AllStarted THEN CNext(QuiesceEvs(c), [ev |-> "stuck", n |-> NPending]) ELSE QuiesceEvs(c)
            /\ UNCHANGED <<script, steps, dir, now, pcRun, rw, readyCh, cur, nreq, fetched, renew, target, files, fca, ver, pcR, pcG, seen, gval>>
